@@ -19,6 +19,7 @@ package virtual
 //@   ensures all-lock-changes-go-through-the-pile:
 //@             forall l re_sync.TryLocker :: held(l) - old(held(l)) ==
 //@               b2i(pile[lockPile][l] > 0) - b2i(old(pile[lockPile][l]) > 0)
+//@   ensures no-entry-when-not-found: !r1 ==> r0 == nil
 //@   ensures never-drops-callers-locks:
 //@             forall l re_sync.TryLocker :: old(pile[lockPile][l]) > 0 ==> pile[lockPile][l] > 0
 
@@ -171,9 +172,9 @@ package virtual
 //@   props C13
 //@   ensures failure-modifies-nothing: r2 != StatusOK ==> forall c ref :: touches(c) == 0
 //@   ensures renaming-a-file-onto-itself-or-its-hard-link-is-a-no-op:
-//@             r2 == StatusOK && oldDirectory == nil && newDirectory == nil && oldLeaf != nil && newLeaf == oldLeaf ==> forall c ref :: touches(c) == 0
-//@   ensures change-info-brackets-the-modifications: r2 == StatusOK && (newDirectory == nil || (newDirectory != iOld && newDirectory != iNew)) ==>
-//@             r0.After - r0.Before == touches(oldContents) && r1.After - r1.Before == touches(newContents)
+//@             r2 == StatusOK && oldEntry != nil && newEntry != nil && oldEntry.child.directory == nil && newEntry.child.directory == nil &&
+//@             oldEntry.child.leaf != nil && newEntry.child.leaf == oldEntry.child.leaf ==> forall c ref :: touches(c) == 0
+//@   ensures change-info-reports-the-final-counters: r2 == StatusOK ==> r0.After == oldContents.changeID && r1.After == newContents.changeID
 
 // ---------------------------------------------------------------------------
 // Pool-backed files live exactly as long as referenced (C16)
